@@ -1009,6 +1009,12 @@ fn wm_inputs(rng: &mut Rng, thorough: bool) -> Vec<(String, Vec<u64>)> {
     v.push(("sorted".into(), (0..129u64).rev().map(|i| i / 10).collect()));
     v.push(("runs".into(), (0..300u64).map(|i| (i / 64) % 3).collect()));
     v.push(("one-absent-zero".into(), vec![4, 4, 2, 6, 2, 4, 6, 6, 6]));
+    // gaps in the alphabet in vectors whose length is an exact power of two (the offset table stores the length for an
+    // absent value)
+    for k in [1u32, 2, 4, 6, 8] {
+        let len = 1usize << k;
+        v.push(("gaps-pow2".into(), (0..len).map(|i| if i % 3 == 0 { 0 } else { 2 + 3 * rng.below(3) }).collect()));
+    }
     v.push(("max4096".into(), vec![4096, 0, 4096, 1, 2048]));
     // wide items: the core only (a WaveletMatrix needs an array of alphabet size)
     v.push(("wide".into(), vec![u64::MAX, 0, 1u64 << 63, 1, u64::MAX]));
